@@ -17,8 +17,12 @@ func c07Scenarios(tier string) []*Scenario {
 	}
 	var out []*Scenario
 	var extra func(env *Env) string // additional oracle for the scenarios added while it is set
+	var ctxDeadline time.Duration   // the scenarios added while it is set run under a caller context with this deadline
 	add := func(name string, stack []Spec, script []Out) {
 		ex := extra
+		if ctxDeadline != 0 {
+			name += fmt.Sprintf("/caller-deadline=%d", int64(ctxDeadline))
+		}
 		check := func(env *Env) string {
 			if ex != nil {
 				if msg := ex(env); msg != "" {
@@ -38,7 +42,7 @@ func c07Scenarios(tier string) []*Scenario {
 		out = append(out, &Scenario{
 			Name:  fmt.Sprintf("C07/%s [%s] script=%s", name, stackStr(stack), scriptStr(script)),
 			Bound: bound, Reduce: true,
-			Body: stackBody(stack, script, RunOpts{Grace: 10 * L, Probes: true, Reduce: true, Check: check}),
+			Body: stackBody(stack, script, RunOpts{Grace: 10 * L, Probes: true, Reduce: true, Check: check, CtxDeadline: ctxDeadline}),
 		})
 	}
 	T := Spec{Kind: KTimeout, Limit: L}
@@ -119,6 +123,15 @@ func c07Scenarios(tier string) []*Scenario {
 		add("hedge(fallback(timeout))", []Spec{{Kind: KHedge, MaxHedges: 1, HDelay: 10, Cancel: []Cond{{K: "result", V: 77}}}, F, T}, []Out{{V: 1, Block: true}, {V: 1, Block: true}})
 		extra = nil
 	}
+	// the caller's context has a deadline of its own, well before the time limit: the Timeout does not
+	// borrow it (ErrExceeded never before the limit; a function that ignores the deadline returns its result)
+	ctxDeadline = 10
+	add("bare", []Spec{T}, []Out{{V: 1, Dur: 30}})
+	add("bare", []Spec{T}, []Out{{Err: E1, Dur: 30}})
+	add("bare", []Spec{T}, []Out{{V: 1, Dur: L}})
+	add("bare", []Spec{T}, []Out{{V: 1, Block: true}})
+	add("fallback(timeout)", []Spec{F, T}, []Out{{V: 1, Dur: 30}})
+	ctxDeadline = 0
 	// bulkhead / rate limiter inside and outside
 	for _, w := range []time.Duration{L - 1, L, L + 50} {
 		add("timeout(bulkhead-full)", []Spec{T, {Kind: KBulkhead, Conc: 1, BWait: w, Held: 1}}, []Out{{V: 1}})
